@@ -27,7 +27,7 @@ func init() {
 		ID:    "C08",
 		Level: "exploration",
 		Rule: "E1 bounded-exhaustive enumeration, per width n in {1,2,4,8}: (split) every string of length ≤2 over all 256 byte values and of length ≤L over {00,01,7f,80,ff,a5,5a,'a'}: FromStr length and every word, Get at every index, ToStr∘FromStr; " +
-			"(pack) ToStr on every list of in-range words up to a width-dependent length (every partial-last-byte shape); (diff) FirstDiff on every ordered pair of strings of length ≤D over 6 bytes × every from in [0, words+2] × every end in [-1, words+2]; (diff, long) FirstDiff on every ordered pair of 48 strings of 8..19 bytes (4 stem variants × 3 tails) and on single-byte flips of bases of EVERY length 1..40 at every byte position × every from × 7 ends; (lists) FromStrs/ToStrs element-wise on every list of ≤3 strings over 4 strings. " +
+			"(pack) ToStr on every list of in-range words up to a width-dependent length (every partial-last-byte shape); (diff) FirstDiff on every ordered pair of strings of length ≤D over 6 bytes × every from in [0, words+2] × every end in [-1, words+2]; (diff, long) FirstDiff on every ordered pair of 48 strings of 8..19 bytes (4 stem variants × 3 tails) and on single-byte flips of bases of EVERY length 1..40 at every byte position × every from × 7 ends; (lists) FromStrs/ToStrs element-wise (and the FromStrs elements once more after appending a byte to each: results must not alias each other) on every list of ≤3 strings over 4 strings. " +
 			"Oracle: the string's '0'/'1' rendering cut into n-bit groups. A case is one call; non-trivial when the string/list is non-empty.",
 		Assumptions: []string{"from < 0 and end < -1 are outside the statement and not called; long strings over the full byte alphabet are not enumerated"},
 		Run:         c08Run,
@@ -374,6 +374,9 @@ func c08Run(c *mc.Ctx) {
 			}()
 			if p != "" || fmt.Sprint(got) != fmt.Sprint(want) || len(got) != len(want) {
 				c.Fail(3<<50|int64(n)<<32|int64(li), "FromStrs", "FromStrs", c08Case{Width: n, List: gen.BytesList(ks)}, p+fmt.Sprint(got), fmt.Sprint(want))
+			} else if g2 := c08AppendPoke(got); fmt.Sprint(g2) != fmt.Sprint(want) {
+				// element-wise: appending to one returned element must not change another
+				c.Fail(3<<50|int64(n)<<32|int64(li), "FromStrs/append", "FromStrs/append", c08Case{Width: n, List: gen.BytesList(ks)}, "after appending to each element: "+fmt.Sprint(g2), fmt.Sprint(want))
 			}
 			back, p2 := func() (r []string, p string) {
 				defer func() {
@@ -393,6 +396,16 @@ func c08Run(c *mc.Ctx) {
 			c.Count(2, nt)
 		}
 	}
+}
+
+// c08AppendPoke appends one byte to every returned element (discarding the
+// result, as a caller building on a returned slice would) and returns the
+// elements as they read afterwards: independent results are unchanged.
+func c08AppendPoke(rst [][]byte) [][]byte {
+	for i := range rst {
+		_ = append(rst[i], 0xEE)
+	}
+	return rst
 }
 
 func c08Judge(kind string, cs c08Case) (got, want string) {
@@ -418,6 +431,14 @@ func c08Judge(kind string, cs c08Case) (got, want string) {
 	case "FirstDiff":
 		g, p := bwFirstDiff(n, a, b, cs.From, cs.End)
 		return p + fmt.Sprint(g), fmt.Sprint(refFirstDiff(a, b, n, cs.From, cs.End))
+	case "FromStrs/append":
+		ks := gen.StringsOf(cs.List)
+		var w [][]byte
+		for _, k := range ks {
+			w = append(w, refWords(k, n))
+		}
+		g := c08AppendPoke(bitword.BitWord[n].FromStrs(ks))
+		return "after appending to each element: " + fmt.Sprint(g), "after appending to each element: " + fmt.Sprint(w)
 	case "FromStrs":
 		ks := gen.StringsOf(cs.List)
 		var w [][]byte
